@@ -1,0 +1,214 @@
+//go:build verif
+
+package search
+
+// Verification hooks for property C19 (shard reloads). Not part of the normal build.
+
+import (
+	"fmt"
+	"sort"
+	"time"
+
+	"github.com/sourcegraph/zoekt"
+)
+
+// VerifVersionFromPath calls versionFromPath and reports a panic instead of propagating it.
+func VerifVersionFromPath(path string) (name string, version int, panicked string) {
+	defer func() {
+		if r := recover(); r != nil {
+			panicked = fmt.Sprint(r)
+		}
+	}()
+	name, version = versionFromPath(path)
+	return name, version, ""
+}
+
+// VerifLoaderCall is one call made by DirectoryWatcher.scan on its loader.
+type VerifLoaderCall struct {
+	Op   string // "load" | "drop"
+	Keys []string
+}
+
+type verifRecLoader struct {
+	calls []VerifLoaderCall
+	inner shardLoader // optional: forward to a real loader
+}
+
+func (l *verifRecLoader) load(keys ...string) {
+	l.calls = append(l.calls, VerifLoaderCall{Op: "load", Keys: append([]string(nil), keys...)})
+	if l.inner != nil {
+		l.inner.load(keys...)
+	}
+}
+
+func (l *verifRecLoader) drop(keys ...string) {
+	l.calls = append(l.calls, VerifLoaderCall{Op: "drop", Keys: append([]string(nil), keys...)})
+	if l.inner != nil {
+		l.inner.drop(keys...)
+	}
+}
+
+// VerifScanner is a DirectoryWatcher without its goroutines: scan is called explicitly.
+type VerifScanner struct {
+	dw  *DirectoryWatcher
+	rec *verifRecLoader
+}
+
+// VerifNewScanner returns a DirectoryWatcher over dir with a recording loader. If ss is non-nil, load/drop
+// are forwarded to the real loader of that sharded searcher.
+func VerifNewScanner(dir string, ss *VerifSharded) *VerifScanner {
+	rec := &verifRecLoader{}
+	if ss != nil {
+		rec.inner = &loader{ss: ss.ss}
+	}
+	return &VerifScanner{
+		dw: &DirectoryWatcher{
+			dir:        dir,
+			timestamps: map[string]time.Time{},
+			loader:     rec,
+			ready:      make(chan struct{}),
+			quit:       make(chan struct{}),
+			stopped:    make(chan struct{}),
+		},
+		rec: rec,
+	}
+}
+
+// Scan runs the real DirectoryWatcher.scan once and returns the loader calls it made, in order.
+func (s *VerifScanner) Scan() (calls []VerifLoaderCall, err error, panicked string) {
+	defer func() {
+		if r := recover(); r != nil {
+			panicked = fmt.Sprint(r)
+		}
+		calls = s.rec.calls
+		s.rec.calls = nil
+	}()
+	err = s.dw.scan()
+	return nil, err, ""
+}
+
+// Timestamps returns a copy of the watcher's timestamp table.
+func (s *VerifScanner) Timestamps() map[string]time.Time {
+	m := make(map[string]time.Time, len(s.dw.timestamps))
+	for k, v := range s.dw.timestamps {
+		m[k] = v
+	}
+	return m
+}
+
+// VerifSharded wraps a real shardedSearcher.
+type VerifSharded struct {
+	ss *shardedSearcher
+}
+
+// VerifNewShardedSearcher calls newShardedSearcher(n).
+func VerifNewShardedSearcher(n int64) *VerifSharded {
+	return &VerifSharded{ss: newShardedSearcher(n)}
+}
+
+// VerifNewShardedSearcherSched is newShardedSearcher with a multiScheduler built by VerifNewMultiScheduler.
+func VerifNewShardedSearcherSched(n int64, batchdiv int, interactive time.Duration) *VerifSharded {
+	ss := newShardedSearcher(n)
+	ss.sched = VerifNewMultiScheduler(n, batchdiv, interactive).s
+	return &VerifSharded{ss: ss}
+}
+
+// Streamer returns the searcher itself.
+func (v *VerifSharded) Streamer() zoekt.Streamer { return v.ss }
+
+// Replace calls the real shardedSearcher.replace.
+func (v *VerifSharded) Replace(shards map[string]zoekt.Searcher) { v.ss.replace(shards) }
+
+// Load / Drop call the real loader (loadShard from disk, then replace).
+func (v *VerifSharded) Load(keys ...string) { (&loader{ss: v.ss}).load(keys...) }
+func (v *VerifSharded) Drop(keys ...string) { (&loader{ss: v.ss}).drop(keys...) }
+
+// MarkReady calls markReady.
+func (v *VerifSharded) MarkReady() { v.ss.markReady() }
+
+// Keys returns the keys of the shards map (under mu), sorted.
+func (v *VerifSharded) Keys() []string {
+	v.ss.mu.Lock()
+	defer v.ss.mu.Unlock()
+	var ks []string
+	for k := range v.ss.shards {
+		ks = append(ks, k)
+	}
+	sort.Strings(ks)
+	return ks
+}
+
+// MapSearchers returns key -> underlying Searcher of the shards map (under mu).
+func (v *VerifSharded) MapSearchers() map[string]zoekt.Searcher {
+	v.ss.mu.Lock()
+	defer v.ss.mu.Unlock()
+	m := make(map[string]zoekt.Searcher, len(v.ss.shards))
+	for k, r := range v.ss.shards {
+		m[k] = r.Searcher
+	}
+	return m
+}
+
+// VerifSnapshot is what a search works on: the published ranked list. Holding it keeps the shards reachable,
+// exactly as a running search does.
+type VerifSnapshot struct {
+	shards []*rankedShard
+	Ready  bool
+}
+
+// Loaded calls the real getLoaded.
+func (v *VerifSharded) Loaded() *VerifSnapshot {
+	l := v.ss.getLoaded()
+	return &VerifSnapshot{shards: l.shards, Ready: l.ready}
+}
+
+// Searchers returns the underlying searchers of the snapshot in ranked order.
+func (s *VerifSnapshot) Searchers() []zoekt.Searcher {
+	out := make([]zoekt.Searcher, len(s.shards))
+	for i, r := range s.shards {
+		out[i] = r.Searcher
+	}
+	return out
+}
+
+// Priorities returns the priorities of the snapshot in ranked order.
+func (s *VerifSnapshot) Priorities() []float64 {
+	out := make([]float64, len(s.shards))
+	for i, r := range s.shards {
+		out[i] = r.priority
+	}
+	return out
+}
+
+// FirstRepoNames returns, per ranked shard, the name of its first cached repository ("" if none).
+func (s *VerifSnapshot) FirstRepoNames() []string {
+	out := make([]string, len(s.shards))
+	for i, r := range s.shards {
+		if len(r.repos) > 0 {
+			out[i] = r.repos[0].Name
+		}
+	}
+	return out
+}
+
+// VerifUnwrapDirectorySearcher digs the shardedSearcher and the DirectoryWatcher out of the value returned by
+// NewDirectorySearcher / NewDirectorySearcherFast.
+func VerifUnwrapDirectorySearcher(s zoekt.Streamer) (*VerifSharded, *DirectoryWatcher) {
+	rs, ok := s.(*readySearcher)
+	if !ok {
+		panic(fmt.Sprintf("verif: %T is not *readySearcher", s))
+	}
+	tr, ok := rs.Streamer.(*typeRepoSearcher)
+	if !ok {
+		panic(fmt.Sprintf("verif: %T is not *typeRepoSearcher", rs.Streamer))
+	}
+	ds, ok := tr.Streamer.(*directorySearcher)
+	if !ok {
+		panic(fmt.Sprintf("verif: %T is not *directorySearcher", tr.Streamer))
+	}
+	ss, ok := ds.Streamer.(*shardedSearcher)
+	if !ok {
+		panic(fmt.Sprintf("verif: %T is not *shardedSearcher", ds.Streamer))
+	}
+	return &VerifSharded{ss: ss}, ds.directoryWatcher
+}
